@@ -261,6 +261,8 @@ func init() {
 		r.yield("Mutex.Unlock")
 		return nil
 	})
+	// (happens-before: Unlock -> Lock/RLock through the mutex's own clock; RUnlock -> Lock through a
+	// second clock, so that two readers stay unordered and a write under a read lock shows as a race)
 	// RWMutex: modelled as writer flag in w.state (field 0 is a Mutex) and reader count in readerCount.
 	rw := func(p Ptr, r *Run) *Agg {
 		if p.A == nil {
@@ -287,6 +289,7 @@ func init() {
 		r.block(func() bool { w, n := rwState(r, m); return !w && n == 0 }, "RWMutex.Lock")
 		r.wr(r.rd(m)[0].(*Agg))[0] = smt.Const(32, 1)
 		r.hbAcquire(m)
+		r.hbAcquire(rwReaders{m}) // a writer is ordered after the readers that left, readers are not ordered among themselves
 		return nil
 	})
 	reg("(*sync.RWMutex).Unlock", func(r *Run, _ *frame, _ *ssa.Function, args []Value) Value {
@@ -314,7 +317,7 @@ func init() {
 		if n <= 0 {
 			panic(r.fault("sync: RUnlock of unlocked RWMutex", ""))
 		}
-		r.hbRelease(m)
+		r.hbRelease(rwReaders{m})
 		setReaders(r, m, n-1)
 		r.yield("RWMutex.RUnlock")
 		return nil
@@ -728,3 +731,6 @@ func (r *Run) timeNow() Value {
 	a.E[2] = loc
 	return a
 }
+
+// rwReaders keys the clock into which the readers of an RWMutex release.
+type rwReaders struct{ m *Agg }
